@@ -40,6 +40,14 @@ def mixed_workload(tier, rng, scale=1):
     cases += gen_dec.gen_length_extremes(rng)
     cases += gen_dec.gen_overdeclared_segments("quick", rng, 12 * k)       # reads behind an exactly sized frame would reach a delivered packet
     cases += sample(rng, [c for c in gen_misc.gen_c14("quick", rng) if set(c.tags) & {"no-shared-state", "wire-packet-modified-in-place"}], 16 * k)
+    # a capture module repeats its status message several times per second: the SAME TECMP status frame several times in a row, another
+    # module's (another serial number, incl. 0) in the next case (text that is formatted once and kept would be shared between threads)
+    for serial in (0, 1, 77, 4294967295, 1000000000, rng.getrandbits(32), rng.getrandbits(32), 0):
+        b = bytearray(gen_dec.tecmp_cm_payload(rng, 36))
+        b[8:12] = serial.to_bytes(4, "big")
+        f = gen_dec.tecmp_frame(rng, 1, 0, bytes(b))
+        cases.append(Case("c19rep", [gen_dec.feed(f)] * 4, True, ("repeated-tecmp-status",), meta={"noshrink": True}))
+    cases += gen_dec.gen_decoder_copies("quick", rng)       # a copy of a Decoder is a separate instance (it may live on another thread)
     for c in cases:
         c.nontrivial = True
     return cases
